@@ -205,4 +205,89 @@ MUT = {
  'c15_cache_dropped': ('aiuti/asyncio.py', "            threadsafe_async_cache,\n            cache=cache,\n        )", "            threadsafe_async_cache,\n        )", 'C15'),
  'c15_shared_batcher': ('aiuti/asyncio.py', "            batcher = batchers[loop]\n        except KeyError:\n            batcher = batchers[loop] = AsyncBackgroundBatcher(", "            batcher = batchers[type(loop)]\n        except KeyError:\n            batcher = batchers[type(loop)] = AsyncBackgroundBatcher(", 'C15'),
  'c15_mbs_default_in_wrapper': ('aiuti/asyncio.py', "                cast(_BatchFunc[A_contra, R_co], func),\n                max_batch_size=max_batch_size,", "                cast(_BatchFunc[A_contra, R_co], func),\n                max_batch_size=256,", 'C15'),
+ 'c01_no_reprobe': ('aiuti/asyncio.py', """            with event_making_lock:
+                try:  # verify nothing cached while waiting for lock
+                    return _cache[key]
+                except KeyError:
+                    pass
+
+                try:""", """            with event_making_lock:
+                try:""", 'C01'),
+ 'c01_no_lock': ('aiuti/asyncio.py', """                    caching_loop = aio.get_running_loop()
+                    event = aio.Event()
+                    events[key] = caching_loop, event
+                    do_caching = True""", """                    caching_loop = aio.get_running_loop()
+                    event = aio.Event()
+                    do_caching = True""", 'C01'),
+ 'c01_marker_removed_before_publish': ('aiuti/asyncio.py', """                try:
+                    result = await _func(*args, **kwargs)
+                except Exception:
+                    raise  # Bubble any errors without caching
+                else:
+                    _cache[key] = result  # Cache for other tasks
+                finally:""", """                try:
+                    result = await _func(*args, **kwargs)
+                except Exception:
+                    raise  # Bubble any errors without caching
+                finally:""", 'C01'),
+ 'c05_no_set_on_failure': ('aiuti/asyncio.py', """                    with event_making_lock:
+                        # Wake up any waiting tasks
+                        event.set()""", """                    with event_making_lock:
+                        # Wake up any waiting tasks
+                        if 'result' in locals():
+                            event.set()""", 'C05'),
+ 'c05_no_closed_retry': ('aiuti/asyncio.py', """                except RuntimeError:  # caching loop most likely closed
+                    continue  # loop around and try again""", """                except RuntimeError:  # caching loop most likely closed
+                    wait_event.close()
+                    await aio.sleep(3600)
+                    continue""", 'C05'),
+ 'c06_cache_in_finally': ('aiuti/asyncio.py', """                try:
+                    result = await _func(*args, **kwargs)
+                except Exception:
+                    raise  # Bubble any errors without caching
+                else:
+                    _cache[key] = result  # Cache for other tasks
+                finally:
+                    with event_making_lock:""", """                result = None
+                try:
+                    result = await _func(*args, **kwargs)
+                except Exception:
+                    raise  # Bubble any errors without caching
+                finally:
+                    _cache[key] = result  # Cache for other tasks
+                    with event_making_lock:""", 'C06'),
+ 'c06_no_shield': ('aiuti/asyncio.py', "                await aio.shield(waiter)\n", "                await waiter\n", 'C06'),
+ 'c06_unfix_own_marker': ('aiuti/asyncio.py', "                        if events.get(key, (None, None))[1] is event:\n                            del events[key]", "                        del events[key]", 'C06'),
+ 'c16_done_in_else': ('aiuti/asyncio.py', """    def _queue_elements() -> None:
+        try:
+            for x in iterable:
+                put(x)
+        finally:
+            put(_DONE)""", """    def _queue_elements() -> None:
+        for x in iterable:
+            put(x)
+        put(_DONE)""", 'C16'),
+ 'c16_truthiness': ('aiuti/asyncio.py', "        while (i := await q.get()) is not _DONE:\n            yield i  # type: ignore", "        while (i := await q.get()) is not _DONE and i != _DONE:\n            if i or i is None or i == 0:\n                yield i  # type: ignore", 'C16'),
+ 'c16_no_await_future': ('aiuti/asyncio.py', "        await future  # Bubble any errors", "        future.add_done_callback(lambda f: f.exception())", 'C16'),
+ 'c16_sync_no_result': ('aiuti/asyncio.py', """        try:
+            while (i := q.get()) is not _DONE:
+                yield i
+        finally:
+            future.result()""", """        while (i := q.get()) is not _DONE:
+            yield i""", 'C16'),
+ 'c17_no_loop_lock': ('aiuti/asyncio.py', """    def _loop_thread() -> T:
+        with _get_loop_lock(loop):
+            aio.set_event_loop(loop)
+            return loop.run_until_complete(aw)""", """    def _loop_thread() -> T:
+        aio.set_event_loop(loop)
+        return loop.run_until_complete(aw)""", 'C17'),
+ 'c17_stop_no_wait': ('aiuti/asyncio.py', """        loop.call_soon_threadsafe(loop.stop)
+        future.result()  # Wait for loop to exit and reveal errors""", """        loop.call_soon_threadsafe(loop.stop)""", 'C17'),
+ 'c17_no_wait_running': ('aiuti/asyncio.py', """    while not loop.is_running():
+        sleep(0)  # Force switching to other threads
+""", """    sleep(0)  # Force switching to other threads
+""", 'C17'),
+ 'c17_closed_check_dropped': ('aiuti/asyncio.py', """    if loop.is_closed():
+        raise RuntimeError("Target loop is closed!")
+""", """""", 'C17'),
 }
